@@ -13,14 +13,97 @@ from vlib.runner import CHECKS  # noqa: E402
 PY = "/venv/bin/python"
 
 # property -> (level, technique, level text, level note, design ref)
+def _e(level, technique, text, note, prop):
+    return (level, technique, text, note, f"DESIGN.md section 3, {prop}")
+
+
+BOUND = " Generated-input search within stated cost bounds (sizes, depths, history lengths); it never establishes absence."
 CLAIMED = {
-    "C16": (
-        "exploration",
-        "exhaustive enumeration of single list operations + Hypothesis operation sequences, model-based (built-in list + cell-tracking focus rule)",
-        "Every single operation with every argument on lists of size <= 5 (6 thorough) and every initial focus is compared with a built-in list and an independent focus rule; Hypothesis sequences of <= 30 operations cover histories on MonitoredList, MonitoredFocusList, both list walkers and Pile.contents. Bounded exhaustive + random beyond, never a proof.",
-        "Trusts CPython's list as the reference; new items passed as list/tuple; sizes and sequence lengths are cost bounds.",
-        "DESIGN.md section 3, C16",
-    ),
+    "C01": _e("exploration",
+              "Hypothesis type-directed widget-tree generation x sizes x modes + deterministic sweep; validity-predicate oracle (size contract, independent column-width table)",
+              "Widget trees of every bundled leaf/decoration/container class are generated type-directed by sizing mode and rendered in every mode they report, at sizes 1..40 x 1..20, both focus values, three encodings; the canvas size contract, row widths (by an independent width table) and cursor containment are checked." + BOUND,
+              "Trusts the wcwidth table as the Unicode width table; tree depth <= 4 (6 thorough).", "C01"),
+    "C02": _e("exploration",
+              "Hypothesis expression trees of canvas operations; model-based oracle (cell-grid reference model), operand-immutability snapshots, content_delta round trip",
+              "Random expressions over CanvasCombine/Join/Overlay, pad/trim, attribute maps on text/solid/blank leaves are evaluated on urwid canvases and on an independent rows x cols cell grid and compared cell by cell incl. cursor and pop-up coordinates; operands are snapshotted; content_delta is applied to the old grid and compared with the new one." + BOUND,
+              "The cell-grid model (vlib/cells.py) is the trusted reference.", "C02"),
+    "C03": _e("exploration",
+              "exhaustive enumeration of short strings x widths x wrap x align x encodings + Hypothesis long texts; validity-predicate oracle over the layout structure, cross-checked with rows()/render()",
+              "Every string of length <= 5 (6-7 thorough) over a 6-letter alphabet per encoding at widths 1..8 in all wrap/align modes, plus random longer texts, is laid out; order, no duplication, allowed omissions, fit, fill ('any'), break rule ('space'), alignment padding, ellipsis, row count and canvas text are checked against an oracle independent of urwid's width arithmetic." + BOUND,
+              "Custom TextLayout classes and widths > 30 are not explored.", "C03"),
+    "C04": _e("exploration",
+              "Hypothesis draw/clear/resize histories on raw_display.Screen; model-based oracle (independent reference VT100/xterm interpreter) + differential against a full-repaint twin; HTML output parsed and compared",
+              "Histories of draw_screen / clear / resize / palette and terminal-property changes on a raw Screen writing to a capture stream are interpreted by an independent reference terminal; every cell's glyph and attributes, the cursor, absence of scrolling, and equality with a fully repainting twin screen are checked; HtmlGenerator output is parsed and compared row by row." + BOUND,
+              "Faithful up to the reference terminal model (vlib/vtmodel.py, xterm semantics); screen sizes 1..12 x 1..6.", "C04"),
+    "C05": _e("exploration",
+              "grammar-based Hypothesis byte streams x fragmentations x timeouts + exhaustive sweeps of the key table + atheris coverage-guided fuzzing (thorough); independent protocol decoder, metamorphic fragmentation relation, raw-byte conservation",
+              "Byte streams from a grammar of key sequences, mouse reports, cursor reports, multi-byte characters and garbage are fed to Screen.parse_input whole and under generated fragmentations with completion timeouts; decoded events are compared with an independent decoder written from the xterm documentation, with the unfragmented decoding, and the raw bytes must be conserved." + BOUND,
+              "The explicit cut list replaces real read() scheduling.", "C05"),
+    "C06": _e("exploration",
+              "Hypothesis operation histories on a cached/uncached twin pair of widget trees; differential oracle + snapshot immutability of handed-out canvases",
+              "Histories of render/rows calls, keypresses, mouse presses, public mutations of any node, contents edits and canvas drops + gc are applied to two identical trees, one rendering through the canvas cache and one with fetch/store patched out; content, cursor and rows must agree after every step and every canvas handed out must keep its snapshotted content." + BOUND,
+              "Only documented public mutators are in the domain.", "C06"),
+    "C07": _e("exploration",
+              "Hypothesis operation histories (keys, mouse, resize, walker edits) on ListBox; history invariant against the concatenation of the items' own renders",
+              "After every step the rendered ListBox must be a gap-free window of the vertical concatenation of its items' own renders that contains the focus item, with blank space only below the last item when everything fits, the cursor translated correctly, and button-1 presses focusing the item under the pointer." + BOUND,
+              "wrap_around walkers are outside the quantifier.", "C07"),
+    "C08": _e("exploration",
+              "Hypothesis operation histories on nested containers with probe leaves; history invariants against a model tree (focus validity, key routing within the focus path, focus-path round trip)",
+              "Histories of keys, clicks, focus assignments (valid and invalid), set_focus_path and contents mutations on nestings of Pile/Columns/GridFlow/Frame/Overlay/ListBox with logging probe leaves; after every step focus validity, IndexError contracts, key routing, unchanged unhandled keys, arrow-key selectability, selectable() after contents assignment, focus-only rendering and focus-path round trips are checked." + BOUND,
+              "Invalid positions are generated within the position type (int / part name); TreeListBox is not anchored.", "C08"),
+    "C09": _e("exploration",
+              "Hypothesis fitted widget trees with glyph-painting probe leaves, every cell of the rendered area visited; agreement oracle between render, get_cursor_coords, mouse_event and move_cursor_to_coords (+ twin tree)",
+              "Trees over the cursor-protocol widgets are rendered at sizes that satisfy the fit precondition (verified on the render); get_cursor_coords must equal the rendered cursor, a mouse event on every cell of a leaf must reach exactly that leaf with leaf-relative coordinates, and move_cursor_to_coords must succeed exactly when the leaf of a twin tree accepts the translated cell, leaving the cursor on the requested row." + BOUND,
+              "Cells in margins, dividers and unselectable children are not asserted.", "C09"),
+    "C10": _e("exploration",
+              "Hypothesis key/click histories on Edit, IntEdit, IntegerEdit, FloatEdit; model-based oracle (reference editor + display map) and signal-log invariant",
+              "Key and click sequences are applied to Edit widgets (str/bytes, wide/combining text, all wrap modes) and to a reference editor model; text, cursor position, vertical movement by display map, rendered cursor cell, change/postchange signal chain and unhandled keys are compared after every step; numeric edits are checked for their alphabet invariant." + BOUND,
+              "In clip mode only row change and validity of vertical moves are asserted.", "C10"),
+    "C11": _e("exploration",
+              "exhaustive enumeration over all Unicode scalar values, all 1-2 byte sequences and all short strings over class representatives + Hypothesis; algebraic laws, str/bytes differential, independent width table",
+              "Every Unicode scalar value (str and UTF-8 bytes), every 1- and 2-byte sequence in wide and narrow modes and every short concatenation of class representatives is pushed through the width, stepping, position and trim functions; widths are compared with an independent table, additivity, inverse stepping, boundary and trim-padding laws and str/bytes agreement are asserted." + BOUND,
+              "Offsets inside a character are outside the callers' contract and not generated.", "C11"),
+    "C12": _e("fault_enumeration",
+              "fault enumeration: every callback invocation index x exception kind x six event loops x screen kinds on a pty, sessions from a seeded generator; call-order log, exception identity and terminal/termios/signal restoration oracles",
+              "Scripted sessions (keys, mouse, resize, alarms, pipe/file watches) run on a real raw Screen attached to a pty under every bundled event loop; for every callback invocation index an ExitMainLoop or a foreign exception is injected; call order, exit behaviour, screen stopped, termios, signal handlers and terminal modes (decoded from the pty output) are checked after run().",
+              "The schedule is the scripted order; kernel-level signal/read races are not enumerated. GLib loop not installed.", "C12"),
+    "C13": _e("exploration",
+              "Hypothesis-generated callback programs on SelectEventLoop under a virtual clock and on all six loops in real time; model-based oracle (reference scheduler)",
+              "Programs of alarms, watches, idle callbacks, removals from callbacks, writes and exceptions are run on SelectEventLoop with fake time/selectors (all relative orders reachable) and on select/asyncio/tornado/twisted/trio/zmq in forked children; exactly-once alarms, removal semantics, due order, watch-after-remove, idle-before-wait and exception propagation are compared with a reference scheduler." + BOUND,
+              "Real-loop timing is checked only as order and one-sided bounds with tolerances.", "C13"),
+    "C14": _e("exploration",
+              "exhaustive enumeration of short connect/disconnect/emit histories x handler behaviours + Hypothesis histories with GC points; list model of connections, weakref liveness",
+              "All canonical histories up to length 4-6 over 2 senders x 2 names x 3 handlers with every assignment of handler behaviours, all argument shapes, and random longer histories with deletion + gc of weak arguments are compared with a list model: exactly-once delivery in connection order, argument order, result, no delivery after disconnect or death, no strong references." + BOUND,
+              "Nothing is asserted about handlers connected or disconnected during the emit they occur in.", "C14"),
+    "C15": _e("exploration",
+              "grammar-based Hypothesis byte streams x resizes x chunking (+ atheris in thorough); robustness invariants, differential against an independent reference VT100, scrollback model",
+              "Byte streams of well-formed and malformed control sequences are fed to vterm.TermCanvas at sizes 1..20 x 1..10 with resizes and arbitrary chunking: never raises, grid shape, cursor and region inside, well-formed replies; on the property's VT100 subset the grid, colours and cursor are compared with an independent reference terminal after every unit; tagged lines are tracked through the scrollback." + BOUND,
+              "Faithfulness is relative to vlib/vtmodel.py on the stated subset; parameters above 10^5 not generated (cost).", "C15"),
+    "C16": _e("exploration",
+              "exhaustive enumeration of single list operations + Hypothesis operation sequences, model-based (built-in list + cell-tracking focus rule)",
+              "Every single operation with every argument on lists of size <= 5 (6 thorough) and every initial focus is compared with a built-in list and an independent focus rule; Hypothesis sequences of <= 30 operations cover histories on MonitoredList, MonitoredFocusList, both list walkers and Pile.contents. Bounded exhaustive + random beyond, never a proof.",
+              "Trusts CPython's list as the reference; new items passed as list/tuple; sizes and sequence lengths are cost bounds.", "C16"),
+    "C17": _e("exploration",
+              "exhaustive short tagged strings + Hypothesis nested markup x layout x attribute-map chains x palettes; per-character reference walk, map composition law, SGR decoded by a reference terminal",
+              "Per displayed character the canvas attribute is compared with the innermost enclosing tag computed by an independent walk of the markup (under wrapping, clipping, ellipsis, alignment and three encodings); chains of AttrMap/AttrWrap/fill_attr are compared with the composition law; palette entries at every colour depth are drawn by a raw Screen and the SGR output decoded by an independent reference terminal." + BOUND,
+              "Palette expectations are parsed from the documented grammar by the harness.", "C17"),
+    "C18": _e("exploration",
+              "exhaustive enumeration of the colour grammar (all tokens, settings subsets/orders, depths; 24-bit sweep in thorough) + Hypothesis malformed strings; round trip, nearest-neighbour predicate, independent xterm tables, error-type predicate",
+              "Every colour token and settings combination at every depth is parsed and described back (round trip, idempotence, equality/hash), mapped values are checked to be nearest by an independent xterm palette table, and malformed strings must raise AttrSpecError or round-trip leniently." + BOUND,
+              "xterm 256/88 colour tables are transcribed in the harness and trusted.", "C18"),
+    "C19": _e("exploration",
+              "exhaustive enumeration over small integer configurations + Hypothesis beyond; arithmetic invariants and probes recording handed-down sizes",
+              "Every small configuration of Columns, box Pile, Padding, Filler, Overlay and GridFlow options x available size is enumerated: non-negative sizes, own-size-or-nothing, focus kept, exact fill, rounding-aware proportionality, margin arithmetic and the sizes actually handed to probe children are asserted." + BOUND,
+              "Proportionality uses the rounding-aware bound stated in DESIGN.md.", "C19"),
+    "C20": _e("exploration",
+              "Hypothesis operation histories on Scrollable / ScrollBar over flow, fixed and ListBox bodies; slice-of-full-render model and scrollbar geometry predicates",
+              "Histories of keys, wheel events, set_scrollpos, resizes and content changes: the Scrollable canvas must equal the rows p..p+h of the wrapped widget's full render with p clamped and reported; ScrollBar thumb geometry (sum, minimum, top iff p == 0, monotone) and the width handed to the body are checked." + BOUND,
+              "Views 1..20 x 1..10.", "C20"),
+}
+
+# properties whose check is registered now (others are listed under not_applicable until their check lands)
+READY = set(os.environ.get("VERIF_READY", "").split()) or {
+    "C01", "C02", "C03", "C05", "C07", "C08", "C10", "C11", "C13", "C14", "C16", "C18", "C19", "C20",
 }
 
 NOT_YET = "check not built yet in this round (planned in DESIGN.md section 3); not claimed until its check is registered"
@@ -30,7 +113,7 @@ def main():
     checks, na = [], []
     for prop in sorted(CHECKS):
         mod = os.path.join(ROOT, "checks", CHECKS[prop] + ".py")
-        if prop in CLAIMED and os.path.exists(mod):
+        if prop in CLAIMED and prop in READY and os.path.exists(mod):
             level, technique, text, note, ref = CLAIMED[prop]
             checks.append(
                 {
